@@ -14,6 +14,7 @@ import (
 	"errors"
 	"fmt"
 	"io"
+	"math"
 
 	"github.com/dapr/kit/streams"
 
@@ -208,7 +209,8 @@ type consumed struct {
 	sizes       []int
 	dflt        int
 	viaByteRead bool
-	stopped     bool // the loop consumer stopped by itself (Stop reached, no error seen)
+	stopped     bool   // the loop consumer stopped by itself (Stop reached, no error seen)
+	panicked    string // the panic value, when the consumption panicked
 }
 
 func eofIfNil(err error) error {
@@ -216,6 +218,23 @@ func eofIfNil(err error) error {
 		return io.EOF
 	}
 	return err
+}
+
+var errPanicked = errors.New("harness: the call panicked")
+
+// c16ConsumeSafe: c16Consume, with a panic of the code under test turned into an outcome.
+func c16ConsumeSafe(r io.Reader, c c16Consumer, total int) (res consumed) {
+	defer func() {
+		if p := recover(); p != nil {
+			res = consumed{err: errPanicked, dflt: 1, panicked: fmt.Sprint(p)}
+		}
+	}()
+	return c16Consume(r, c, total)
+}
+
+func safeClose(c io.Closer) {
+	defer func() { _ = recover() }()
+	_ = c.Close()
 }
 
 // c16Consume drives r — the BARE wrapper — the way the consumer says.  total = number of data
@@ -299,6 +318,8 @@ func c16Err(err error) (string, bool) {
 		return c, true
 	}
 	switch {
+	case errors.Is(err, errPanicked):
+		return "EPanic", true
 	case errors.Is(err, streams.ErrStreamTooLarge):
 		return "ETooLarge", true
 	case errors.Is(err, io.ErrClosedPipe):
@@ -406,15 +427,19 @@ func c16Run(ctx *core.Ctx, in c16Input) {
 		l := streams.LimitReadCloser(rd.(io.ReadCloser), in.N)
 		data, end := in.Script.Data()
 		eof := end == ""
-		res := c16Consume(l, in.Consumer, len(data))
+		res := c16ConsumeSafe(l, in.Consumer, len(data))
 		cb := src.Closes
 		for i := 0; i < ncl; i++ {
-			_ = l.Close()
+			safeClose(l)
 		}
 		ca := src.Closes
 		ec, known := c16Err(res.err)
 		over := int64(len(data)) > in.N
 		c.Facts["over_limit"] = over
+		c.Facts["limit_is_maxint64"] = in.N == math.MaxInt64
+		if res.panicked != "" {
+			c.Note = "panic: " + res.panicked
+		}
 		c.Facts["ends_eof"] = eof
 		c.Facts["last_is_dataeof"] = len(in.Script) > 0 && in.Script[len(in.Script)-1].K == "dataeof"
 		c.Facts["path"] = path(res)
@@ -479,7 +504,7 @@ func c16Run(ctx *core.Ctx, in c16Input) {
 			}
 		}
 		mr := streams.NewMultiReaderCloser(readers...)
-		res := c16Consume(mr, in.Consumer, totalLen)
+		res := c16ConsumeSafe(mr, in.Consumer, totalLen)
 		counts := func() []int {
 			cs := make([]int, len(srcs))
 			for i, s := range srcs {
@@ -489,7 +514,7 @@ func c16Run(ctx *core.Ctx, in c16Input) {
 		}
 		cb := counts()
 		for i := 0; i < ncl; i++ {
-			_ = mr.Close()
+			safeClose(mr)
 		}
 		ca := counts()
 		ec, known := c16Err(res.err)
@@ -532,9 +557,9 @@ func c16Run(ctx *core.Ctx, in c16Input) {
 		w := &budgetWriter{budget: budget, closeErr: in.WCloseErr}
 		t := streams.NewTeeReadCloser(rd, w)
 		data, end := in.Script.Data()
-		res := c16Consume(t, in.Consumer, len(data))
+		res := c16ConsumeSafe(t, in.Consumer, len(data))
 		for i := 0; i < ncl; i++ {
-			_ = t.Close()
+			safeClose(t)
 		}
 		ec, known := c16Err(res.err)
 		bs := "None"
@@ -805,6 +830,28 @@ func c16Gen(ctx *core.Ctx) {
 		}
 		c16Run(ctx, c16Input{Kind: "limit", N: int64(n), Script: script,
 			Consumer: cons[r.Intn(len(cons))], Closes: c16Closes(r), SrcWT: r.Chance(1, 8), CloseErr: r.Chance(1, 6)})
+	}
+	// limit: boundary values of the limit itself - the largest int64 (a caller's "no limit"), its
+	// neighbours, powers of two around the int32/uint32 edges, the smallest int64 - with short
+	// sources of every style, every consumer
+	for _, n := range []int64{math.MaxInt64, math.MaxInt64 - 1, math.MaxInt64 - 2, 1 << 62, 1<<32 + 1, 1 << 32,
+		1<<31 - 1, 1 << 31, -2, math.MinInt64 + 1, math.MinInt64} {
+		for style := 0; style < nXStyles; style++ {
+			ln := r.Intn(5)
+			if style == 0 && n > 0 {
+				ln = 0 // also the empty source
+			}
+			script := xGen(r, seqBytes(style, ln), xStyleOf(r, style), 1+r.Intn(ln+1))
+			cons := c16Consumers(r, 4, brOf["limit"])
+			pick := cons
+			if !ctx.Thorough && style >= 2 {
+				pick = copyAndOne(r, cons)
+			}
+			for _, c := range pick {
+				c16Run(ctx, c16Input{Kind: "limit", N: n, Script: script, Consumer: c,
+					Closes: c16Closes(r), SrcWT: r.Chance(1, 8), CloseErr: r.Chance(1, 6)})
+			}
+		}
 	}
 	// --- multi: 0..4 sources
 	multi := 480
